@@ -855,8 +855,14 @@ class Client:
                 )
                 attributes.append(attribute)
 
+            # Stop if for some reason the list was empty
+            if not response.information:
+                break
+
             # Move on to the next attributes
             starting_handle = attributes[-1].handle + 1
+            if starting_handle > ending_handle:
+                break
 
         return attributes
 
